@@ -1775,7 +1775,8 @@ class _multivalued(Deb822):
             except KeyError:
                 continue
 
-            if self.is_multi_line(contents):
+            if self.is_multi_line(contents) or not contents.strip():
+                # (an empty field is the empty list of records)
                 self[field] = []    # type: ignore
                 updater_method = self[field].append
             else:
